@@ -393,7 +393,8 @@ def ob_qam(M):
 
 @obligation("conv/arrays_native", kind="bounded",
             desc="array forms (int64 arrays, 0-d, scalars np.int64/int) of the conversions agree with the scalar spec on "
-                 "sampled values incl. powers of two up to 2^61; count_bit_errors with operands of different integer dtypes (narrow first or second, total and per axis)")
+                 "sampled values incl. powers of two up to 2^61; count_bit_errors with operands of different integer dtypes (narrow first or second, total and per axis); "
+                 "arrays of every integer type over its whole non-negative range (uint64 up to 2^64-1); long frames (sizes at / around multiples of 2^16, 2-D)")
 def ob_conv_arrays():
     from pyphysim.util.conversion import binary2gray, gray2binary
     from pyphysim.util.misc import count_bit_errors
@@ -440,5 +441,51 @@ def ob_conv_arrays():
                 wantp = [sum(popcount(int(A[i, j]) ^ int(B[i, j])) for i in range(2)) for j in range(A.shape[1])]
                 if [int(v) for v in per] != wantp:
                     return {"count_bit_errors(axis=0) with dtypes": [str(A.dtype), str(B.dtype)], "observed": [int(v) for v in per][:6], "expected": wantp[:6]}
+        # every integer type the arrays may use, over its WHOLE non-negative range (uint64 words up to 2^64 - 1 included)
+        for dt in (np.uint8, np.int8, np.uint16, np.int16, np.uint32, np.int32, np.uint64, np.int64):
+            info = np.iinfo(dt)
+            top = int(info.max)
+            vals = sorted({0, 1, 2, 3, top, top - 1, top // 2, top // 2 + 1, top // 3} | {int(v) % (top + 1) for v in x[:12]} |
+                          {(int(v) * 0x9E3779B97F4A7C15) % (top + 1) for v in x[:12]})
+            a = np.array(vals, dtype=dt)
+            ga = binary2gray(a)
+            wantg = [v ^ (v >> 1) for v in vals]
+            if [int(v) for v in ga] != wantg:
+                return {"binary2gray on %s array" % np.dtype(dt).name: [int(v) for v in ga][:6], "expected": wantg[:6], "values": vals[:6]}
+            if [int(v) for v in gray2binary(ga)] != vals or [int(v) for v in binary2gray(gray2binary(a))] != vals:
+                return {"conversions not mutually inverse on %s array" % np.dtype(dt).name: vals[:8],
+                        "gray2binary(binary2gray(x))": [int(v) for v in gray2binary(ga)][:8]}
+            b = a[::-1].copy()
+            wantd = sum(popcount(p ^ q) for p, q in zip(vals, vals[::-1]))
+            if int(count_bit_errors(a, b)) != wantd:
+                return {"count_bit_errors on %s arrays" % np.dtype(dt).name: int(count_bit_errors(a, b)), "hamming distance": wantd}
         return None
-    return bounded(gen(), check)
+
+    def check_long(case):
+        # long frames: sizes around and at multiples of 2^16 (1-D and 2-D): total == sum of the per-axis counts == Hamming distance
+        rr = np.random.RandomState(case["seed"])
+        shape = tuple(case["long"])
+        A = rr.randint(0, 1 << 20, size=shape, dtype=np.int64)
+        B = rr.randint(0, 1 << 20, size=shape, dtype=np.int64)
+        d = (A ^ B).astype(np.uint64).ravel()
+        want = int(np.unpackbits(d.view(np.uint8)).sum())
+        got = int(count_bit_errors(A, B))
+        if got != want:
+            return {"count_bit_errors(total) on a frame of shape": list(shape), "observed": got, "hamming distance": want}
+        for ax in range(len(shape)):
+            per = np.asarray(count_bit_errors(A, B, axis=ax))
+            if int(per.sum()) != want or per.shape != tuple(n for i, n in enumerate(shape) if i != ax):
+                return {"count_bit_errors(axis=%d) on a frame of shape" % ax: list(shape), "sum": int(per.sum()), "hamming distance": want}
+        return None
+
+    def check_any(case):
+        if isinstance(case, dict):
+            return check_long(case)
+        return check(case)
+
+    def gen_all():
+        for xx in gen():
+            yield xx
+        for shp in ((1 << 16,), ((1 << 16) + 1,), (1 << 17,), (3 << 16,), ((3 << 16) - 5,), (256, 512), (2, 1 << 16), (65537, 2)):
+            yield {"seed": int(r.randint(1 << 30)), "long": list(shp)}
+    return bounded(gen_all(), check_any)
